@@ -324,7 +324,9 @@ class CentrallyBin(Factory, Container):
 
     @inheritdoc(Container)
     def zero(self):
-        return CentrallyBin([c for c, v in self.bins], self.quantity, self.value, self.nanflow.zero())
+        # a container made by ed() or from JSON has no value template: take the type from its bins
+        value = self.value if self.value is not None else self.bins[0][1].zero()
+        return CentrallyBin([c for c, v in self.bins], self.quantity, value, self.nanflow.zero())
 
     @inheritdoc(Container)
     def __add__(self, other):
